@@ -1172,7 +1172,7 @@ pub fn builtin_catalog() -> Catalog {
             matrix.push(g);
         })*};
     }
-    pair_group!((String, u32), (u8, String), (i8, i8), (u16, ()));
+    pair_group!((String, u32), (u8, String), (i8, i8), (u16, ()), (u8, Dedup), (String, Vec<Dedup>));
     {
         let mut g = Vec::new();
         macro_rules! add { ($t:ty, $n:expr) => {{
